@@ -141,10 +141,18 @@ def run(rep, tier, seed):
                 apart = a_["x2"] < b_["x1"] or b_["x2"] < a_["x1"] or a_["y2"] < b_["y1"] or b_["y2"] < a_["y1"]
                 zshape = all((m[2], m[3]) in (("l", "r"), ("r", "l"), ("t", "b"), ("b", "t")) for m in match)
                 # (with author-named edges there may be no outward way in: judged for automatically chosen edges)
-                # (an absolute corner-offset is taken literally and may exceed the gap between the
-                # boxes, which is the author's choice: judged for default and percentage offsets)
-                abs_offset = re.search(r'corner-offset="-?[0-9.]+"', c["xml"]) is not None
-                if apart and cs["form"] == "auto" and not abs_offset:
+                # (an absolute corner-offset is taken literally and may exceed the gap between facing
+                # edges, which is the author's choice: not judged then)
+                mo = re.search(r'corner-offset="(-?[0-9.]+)"', c["xml"])
+                overshoot = False
+                if mo:
+                    v = abs(float(mo.group(1)))
+                    for m in match:
+                        if (m[2], m[3]) in (("l", "r"), ("r", "l")):
+                            overshoot = overshoot or v > abs(m[0][0] - m[1][0]) / 4 + 1e-9
+                        elif (m[2], m[3]) in (("t", "b"), ("b", "t")):
+                            overshoot = overshoot or v > abs(m[0][1] - m[1][1]) / 4 + 1e-9
+                if apart and cs["form"] == "auto" and not overshoot:
                     def outward(loc, p_edge, p_other):
                         dx, dy = p_other[0] - p_edge[0], p_other[1] - p_edge[1]
                         return {"r": dx >= -0.0015, "l": dx <= 0.0015, "b": dy >= -0.0015, "t": dy <= 0.0015}.get(loc, True)
